@@ -352,10 +352,12 @@ RUNTIME["linked"] = {"gen": gen_linked, "call": call_linked, "check": check_link
 # ------------------------------------------------------------------------------ C09 / C03: the rounds of --times
 def gen_rounds(rng):
     return {"adapters": _gen_adapters(rng), "read": _gen_read(rng) + (rng.choice(ADAPTERS) if rng.random() < 0.4 else ""),
-            "times": rng.choice([1, 2, 2, 3]), "action": rng.choice(["trim", "mask", "lowercase", None, None])}
+            "times": rng.choice([1, 2, 2, 3]), "action": rng.choice(["trim", "mask", "lowercase", None, None, "crop", "retain"])}
 
 
 def call_rounds(inp):
+    if inp["action"] in ("crop", "retain"):
+        inp = dict(inp, times=1)
     from dnaio import SequenceRecord
     from cutadapt.modifiers import AdapterCutter
     from cutadapt.adapters import MultipleAdapters
@@ -364,30 +366,43 @@ def call_rounds(inp):
     cutter = AdapterCutter(_mk_adapters(inp["adapters"]), times=inp["times"], action=inp["action"], index=False)
     rec = SequenceRecord("r", s, "I" * len(s))
     info = ModificationInfo(rec)
-    out = cutter(rec, info)
+    try:
+        out = cutter(rec, info)
+    except ValueError as e:          # 'retain' is refused for 5' matches
+        return {"invalid": str(e)}
     # the statement, round by round: search what the previous round left, stop when nothing matches or at the limit
     multi = MultipleAdapters(_mk_adapters(inp["adapters"]))
     cur, want, lo, hi = s.upper() if inp["action"] == "lowercase" else s, [], 0, len(s)
+    last = None
     for _ in range(inp["times"]):
         m = multi.match_to(cur)
         if m is None:
             break
         want.append([m.adapter.name, m.rstart, m.rstop, m.errors])
+        last = [m.rstart, m.rstop, type(m).__name__]
         a, b = _interval(m, len(cur))
         lo, hi = lo + a, lo + b
         cur = cur[a:b]
     return {"recorded": [[m.adapter.name, m.rstart, m.rstop, m.errors] for m in info.matches], "want": want,
-            "out": [out.sequence, out.qualities], "kept": [lo, hi]}
+            "out": [out.sequence, out.qualities], "kept": [lo, hi], "last": last}
 
 
 def check_rounds(inp, res, err):
     if err:
         return ["no_raise:" + err]
+    if "invalid" in res:
+        return []
     bad = []
     if res["recorded"] != res["want"]:
         bad.append(f"C09:matches recorded {res['recorded']}, the rounds of the statement give {res['want']}")
     s = inp["read"]
-    if res["want"]:
+    if res["want"] and inp["action"] == "crop":
+        a, b = res["last"][0], res["last"][1]                 # crop keeps exactly the matched stretch
+        w = [s[a:b], "I" * (b - a)]
+    elif res["want"] and inp["action"] == "retain":
+        a, b = (0, res["last"][1]) if res["last"][2] == "RemoveAfterMatch" else (res["last"][0], len(s))    # remainder plus the adapter
+        w = [s[a:b], "I" * (b - a)]
+    elif res["want"]:
         w = _apply(inp["action"], s, "I" * len(s), res["kept"], None)
     else:
         w = [s.upper() if inp["action"] == "lowercase" else s, "I" * len(s)]
